@@ -165,8 +165,8 @@ def run(ctx):
         return
     from vf.draw import draw_stratified
     from vf.runner import case_hash, load_regress
-    cases = load_regress(ctx.prop, name) + draw_stratified(strata(), 12 if ctx.quick else 150,
-                                                           ctx.seed)
+    cases = load_regress(ctx.prop, name) + gen_cfg.alternate_histories(
+        draw_stratified(strata(), 12 if ctx.quick else 150, ctx.seed), ('origin', 'plain'))
     done = {}
 
     def check(case, workdir):
